@@ -11,9 +11,11 @@
 (* length of the "size" token matters for the layout.                      *)
 (*                                                                         *)
 (*   Build   assigns a record list to an absent structured field           *)
-(*   Dump    writes every PRESENT structured field: one line per record,   *)
-(*           each sub-field preceded by one space, the size right-aligned  *)
-(*           to the field width where the class defines one                *)
+(*   Dump    = Widths ; Write, as in the code (_fixed_field_lengths, then   *)
+(*           get_as_string per field).  Widths computes the width of the   *)
+(*           size column of every PRESENT structured field; Write writes   *)
+(*           these fields: one line per record, each sub-field preceded by *)
+(*           one space, the size right-aligned to the width of the field   *)
 (*             Release, apt-ftparchive : 16 characters "regardless"        *)
 (*             Release, dak            : the longest size of THAT field    *)
 (*             PdiffIndex              : the longest size of THAT field    *)
@@ -37,7 +39,8 @@
 (* single blank (line.split(' ')) so that the padding of the size column   *)
 (* produces empty tokens: RecordsRoundTrip is violated                     *)
 (* (MC_MultiValued_neg_split.cfg).  Both were tried; props/c12.py re-runs  *)
-(* them in every check and fails (exit 2) if TLC stops reporting them.     *)
+(* IterateAllFields in every check and the other two configurations in the *)
+(* thorough tier, and fails (exit 2) if TLC stops reporting the violation.  *)
 (*                                                                         *)
 (* The single-line form (the only record of a field written on the header  *)
 (* line, "SHA1-Current: <hash> <size>", exposed as ONE mapping instead of  *)
@@ -52,14 +55,14 @@
 (* Pure operators are prefixed M and free of variables (re-used by         *)
 (* TraceMultiValued.tla).                                                  *)
 (*                                                                         *)
-(* Bounded enumeration.  One TLC run explores several MODES (chosen in     *)
+(* Bounded enumeration.  A TLC run explores several MODES (chosen in       *)
 (* Init; the definitions are at the end of the module): a mode fixes the   *)
 (* classes, the shapes (= list of size lengths, <= 2 records, or the       *)
 (* single-line form) Build may assign, whether all fields of a paragraph   *)
 (* get the same shape, and a bound on the number of present fields.        *)
 (* Every mode is explored to a fixed point:                                *)
 (*   subsets  every class x EVERY subset of its structured fields          *)
-(*            (PdiffIndex: 2^14) x uniform shapes                          *)
+(*            (PdiffIndex: 2^14, in a TLC run of its own) x uniform shapes *)
 (*   records  one present field x every record list of <= 2 records with   *)
 (*            sizes of 1..18 characters                                    *)
 (*   pairs    <= 2 present fields with independent shapes (width is per    *)
@@ -81,19 +84,21 @@ VARIABLES mode,              \* the enumeration mode: [name, uniform, maxf, heav
           cls, beh,          \* configuration: class, Release.size_field_behavior ("-" for the other classes)
           shape,             \* the uniform shape (NoShape when the mode is not uniform)
           para,              \* field index -> [form, recs]: the structured fields PRESENT in the object
-          phase,             \* "build" | "dumped" | "parsed"
+          phase,             \* "build" | "widths" | "dumped" | "parsed"
+          widths,            \* output of Widths: field index -> width of the size column (0: not padded)
           text,              \* output of Dump: field index -> [form, lines]
           parsed,            \* result of Parse: field index -> [form, recs of <<[n |-> name, t |-> token]>>]
           res                \* outcome of Dump: "ok" | "KeyError"
 
-vars == <<mode, cls, beh, shape, para, phase, text, parsed, res>>
+vars == <<mode, cls, beh, shape, para, phase, widths, text, parsed, res>>
 
 ----------------------------------------------------------------------------
 (* The five class tables, transcribed from the "Multivalued fields" lists   *)
 (* of the module docstring of debian/deb822.py (Dsc, Release, Changes,      *)
 (* PdiffIndex).  BuildInfo is not listed there: its table follows          *)
 (* deb-buildinfo(5) (Checksums-Md5/-Sha1/-Sha256: checksum, size, file      *)
-(* name) with the sub-field naming of the other classes; props/c12.py      *)
+(* name; Checksums-Sha512 by analogy) with the sub-field naming of the     *)
+(* other classes (md5 for the Md5 column as in the class).  props/c12.py   *)
 (* compares all tables with the class attributes and records differences.  *)
 Fld(name, subs) == [f |-> name, subs |-> subs]
 Csum(name, h)   == Fld(name, <<h, "size", "name">>)
@@ -152,9 +157,9 @@ MLine(rec, subs, w) ==
     [i \in 1..Len(subs) |->
         [pad |-> 1 + (IF subs[i] = "size" /\ w > rec[i].len THEN w - rec[i].len ELSE 0),
          id  |-> rec[i].id, len |-> rec[i].len]]
-MFieldText(c, b, subs, e) ==
-    [form |-> e.form, lines |-> [r \in 1..Len(e.recs) |-> MLine(e.recs[r], subs, MWidth(c, b, subs, e))]]
-MCanonText(T, c, b, p) == [f \in DOMAIN p |-> MFieldText(c, b, MSubs(T, c, f), p[f])]
+MWidthTable(T, c, b, p) == [f \in DOMAIN p |-> MWidth(c, b, MSubs(T, c, f), p[f])]
+MFieldText(subs, e, w)  == [form |-> e.form, lines |-> [r \in 1..Len(e.recs) |-> MLine(e.recs[r], subs, w)]]
+MCanonText(T, c, p, ws) == [f \in DOMAIN p |-> MFieldText(MSubs(T, c, f), p[f], ws[f])]
 
 \* str.split(): runs of whitespace separate, leading whitespace is ignored.
 \* (negative control: split(' ') yields an empty token for every additional blank)
@@ -214,28 +219,19 @@ Init == /\ \E m \in Modes : /\ mode = [name |-> m.name, uniform |-> m.uniform, m
                                         heavy |-> m.heavy, emitmod |-> m.emitmod]
                             /\ \E cf \in m.configs : cls = cf[1] /\ beh = cf[2]
                             /\ shape \in (IF m.uniform THEN m.shapes ELSE {NoShape})
-        /\ para = <<>> /\ phase = "build" /\ text = <<>> /\ parsed = <<>> /\ res = "ok"
+        /\ para = <<>> /\ phase = "build" /\ widths = <<>> /\ text = <<>> /\ parsed = <<>> /\ res = "ok"
 
 \* obj[field] = [record, ...]  (or one mapping: single-line form)
 BuildWith(f, e) == /\ phase = "build"
                    /\ f \in 1..NFields /\ f \notin DOMAIN para
                    /\ MEntryOK(Subs(f), e)
                    /\ para' = MExt(para, f, e)
-                   /\ UNCHANGED <<mode, cls, beh, shape, phase, text, parsed, res>>
+                   /\ UNCHANGED <<mode, cls, beh, shape, phase, widths, text, parsed, res>>
 \* bounded enumeration: fields are added in table order (every subset is reached exactly once)
 Build(f, sh) == /\ phase = "build"
                 /\ Cardinality(DOMAIN para) < mode.maxf
                 /\ \A g \in DOMAIN para : g < f
                 /\ BuildWith(f, [form |-> sh.form, recs |-> MMkRecs(Subs(f), sh.sizes)])
-
-\* obj.dump(): the width table is computed first (this is where an absent field hurts)
-IterSet == IF IterateAllFields THEN 1..NFields ELSE DOMAIN para
-DumpTo(t) == /\ phase = "build"
-             /\ res' = MDumpRes(cls, beh, DOMAIN para, IterSet)
-             /\ text' = (IF res' = "ok" THEN t ELSE <<>>)
-             /\ phase' = "dumped"
-             /\ UNCHANGED <<mode, cls, beh, shape, para, parsed>>
-Dump == DumpTo(MCanonText(Tables, cls, beh, para))
 
 \* one CASE line: class, behaviour, "unspecified" flag and per present field
 \* <<index, name, form, width (0: none), width promised?, names of the parsed record, lines of <<pad, id, len>>>>
@@ -245,7 +241,7 @@ CaseOf(pp) ==
      F |-> [k \in 1..Len(present) |->
               LET f == present[k] IN
               << f, Tables[cls][f].f, para[f].form,
-                 MWidth(cls, beh, Subs(f), para[f]), MWidthSpecified(cls, beh, Subs(f), para[f]),
+                 widths[f], MWidthSpecified(cls, beh, Subs(f), para[f]),
                  MNames(pp[f].recs[1]),
                  [r \in 1..Len(text[f].lines) |-> [i \in 1..Len(text[f].lines[r]) |->
                      <<text[f].lines[r][i].pad, text[f].lines[r][i].id, text[f].lines[r][i].len>>]] >>]]
@@ -260,22 +256,45 @@ Selected == \/ mode.emitmod = 1
             \/ NFields > 4 /\ (Cardinality(DOMAIN para) <= 1 \/ Cardinality(DOMAIN para) >= NFields - 1)
             \/ (((MMask(DOMAIN para) * 7919) % 8191) + ShapeNo + EmitOff) % mode.emitmod = 0
 
+\* obj.dump(), first half: the width table (this is where an absent field hurts)
+IterSet == IF IterateAllFields THEN 1..NFields ELSE DOMAIN para
+Widths == /\ phase = "build"
+          /\ res' = MDumpRes(cls, beh, DOMAIN para, IterSet)
+          /\ widths' = (IF res' = "ok" THEN MWidthTable(Tables, cls, beh, para) ELSE <<>>)
+          /\ phase' = "widths"
+          /\ UNCHANGED <<mode, cls, beh, shape, para, text, parsed>>
+\* second half: every present field is written with its width
+\* (a mode with heavy = FALSE goes on only with the paragraphs that are printed as CASE lines)
+Write  == /\ phase = "widths" /\ res = "ok"
+          /\ (IF mode.heavy THEN TRUE ELSE Selected)
+          /\ text' = MCanonText(Tables, cls, para, widths)
+          /\ phase' = "dumped"
+          /\ UNCHANGED <<mode, cls, beh, shape, para, widths, parsed, res>>
+\* both halves in one step, with t as the text written (trace validation: t = the observed text)
+DumpTo(t) == /\ phase = "build"
+             /\ res' = MDumpRes(cls, beh, DOMAIN para, IterSet)
+             /\ widths' = (IF res' = "ok" THEN MWidthTable(Tables, cls, beh, para) ELSE <<>>)
+             /\ text' = (IF res' = "ok" THEN t ELSE <<>>)
+             /\ phase' = "dumped"
+             /\ UNCHANGED <<mode, cls, beh, shape, para, parsed>>
+
 \* cls(text): every line of every structured field becomes a record
 Parse == /\ phase = "dumped" /\ res = "ok"
          /\ parsed' = [f \in DOMAIN text |-> MParseField(Subs(f), text[f], SplitEverySpace)]
-         /\ phase' = "parsed"
-         /\ UNCHANGED <<mode, cls, beh, shape, para, text, res>>
+         /\ phase' = "parsed" /\ text' = <<>>
+         /\ UNCHANGED <<mode, cls, beh, shape, para, widths, res>>
          /\ (Emit /\ Selected) => PrintT(<<"CASE", ToJson(CaseOf(parsed'))>>)
 
 \* the parsed paragraph is an object like the one that was built: it can be dumped again
-Load == /\ phase = "parsed"
+\* (not explored in a mode with heavy = FALSE: RecordsRoundTrip says the same)
+Load == /\ phase = "parsed" /\ mode.heavy
         /\ para' = MUntag(parsed)
-        /\ phase' = "build" /\ text' = <<>> /\ parsed' = <<>>
+        /\ phase' = "build" /\ widths' = <<>> /\ text' = <<>> /\ parsed' = <<>>
         /\ UNCHANGED <<mode, cls, beh, shape, res>>
 
 Next == \/ /\ phase = "build" /\ Cardinality(DOMAIN para) < mode.maxf
            /\ \E sh \in (IF mode.uniform THEN {shape} ELSE ModeShapes) : \E f \in 1..NFields : Build(f, sh)
-        \/ Dump \/ Parse \/ Load
+        \/ Widths \/ Write \/ Parse \/ Load
 
 Spec == Init /\ [][Next]_vars
 
@@ -288,14 +307,25 @@ ASSUME Emit => PrintT(<<"TABLES", ToJson(Tables)>>)
 Heavy  == mode.heavy
 Dumped == phase = "dumped" /\ res = "ok"
 
-TypeOK == /\ phase \in {"build", "dumped", "parsed"} /\ res \in {"ok", "KeyError"}
+TypeOK == /\ phase \in {"build", "widths", "dumped", "parsed"} /\ res \in {"ok", "KeyError"}
           /\ DOMAIN para \subseteq 1..NFields
           /\ phase = "build" => \A f \in DOMAIN para : MEntryOK(Subs(f), para[f])
-          /\ (phase = "build" \/ res # "ok") => text = <<>>
+          /\ (phase # "dumped" \/ res # "ok") => text = <<>>
+          /\ (phase = "build" \/ res # "ok") => widths = <<>>
+          /\ (phase # "build" /\ res = "ok") => DOMAIN widths = DOMAIN para
           /\ phase # "parsed" => parsed = <<>>
 
 \* dump() is defined for EVERY subset of the structured fields
 DumpTotal == phase # "build" => res = "ok"
+
+\* "Width == 16 or max size length": the width table of a Release / PdiffIndex paragraph
+WidthTable == (phase = "widths" /\ res = "ok") =>
+    \A f \in DOMAIN para :
+       LET longest == Max(MSizeLens(Subs(f), para[f].recs)) IN
+       IF MHasWidth(cls) /\ para[f].form = "multi"
+       THEN /\ widths[f] = 16 \/ widths[f] = longest
+            /\ widths[f] = 16 <=> ((cls = "Release" /\ beh = Apt) \/ longest = 16)
+       ELSE MHasWidth(cls) \/ widths[f] = 0
 
 \* the dumped text is a rendering of the records (incl. the documented width)
 DumpExplains == (Dumped /\ Heavy) => MExplains(Tables, cls, beh, para, text, TRUE)
@@ -335,7 +365,7 @@ SingleBlanks == (Dumped /\ Heavy) =>
        (Subs(f)[i] # "size" \/ ~MHasWidth(cls)) => text[f].lines[r][i].pad = 1
 
 ----------------------------------------------------------------------------
-\* modes for the configurations
+\* modes for the configurations (MC_MultiValued*.cfg: Modes <- ...)
 AllConfigs   == {<<"Dsc", "-">>, <<"Changes", "-">>, <<"BuildInfo", "-">>,
                  <<"Release", Apt>>, <<"Release", Dak>>, <<"PdiffIndex", "-">>}
 PdiffConfig  == {<<"PdiffIndex", "-">>}
@@ -350,7 +380,9 @@ Mode(name, configs, shapes, uniform, maxf, heavy, emitmod) ==
      heavy |-> heavy, emitmod |-> emitmod]
 
 ShapesSubsetsQuick == {Sh("multi", <<17, 2>>), Sh("single", <<5>>)}
-ShapesSubsetsP1     == {Sh("multi", <<12>>)}
+ShapesSubsetsP1    == {Sh("multi", <<12>>)}
+ShapesSubsetsP     == {Sh("multi", <<18>>), Sh("multi", <<3, 10>>), Sh("multi", <<17, 2>>),
+                       Sh("multi", <<16, 16>>), Sh("single", <<5>>)}
 ShapesSubsets      == {Sh("multi", <<1>>), Sh("multi", <<18>>), Sh("multi", <<3, 10>>), Sh("multi", <<17, 2>>),
                        Sh("multi", <<16, 16>>), Sh("single", <<5>>), Sh("single", <<17>>)}
 ShapesRecordsQuick == MultiShapes({1, 2, 9, 15, 16, 17, 18}, 2) \cup SingleShapes({1, 16, 18})
@@ -358,20 +390,23 @@ ShapesRecords      == MultiShapes(1..18, 2) \cup SingleShapes(1..18)
 ShapesPairsQuick   == MultiShapes({1, 17}, 2) \cup SingleShapes({3})
 ShapesPairs        == MultiShapes({1, 16, 17}, 2) \cup SingleShapes({3, 17})
 
+\* quick tier (two TLC runs in parallel)
 ModesQuick ==
   { Mode("subsets4", SmallConfigs, ShapesSubsets,      TRUE,  4,  TRUE,  1),
-    Mode("subsetsP", PdiffConfig,  ShapesSubsetsP1,    TRUE,  14, FALSE, 16),
     Mode("records",  AllConfigs,   ShapesRecordsQuick, FALSE, 1,  TRUE,  1),
     Mode("pairs",    SmallConfigs, ShapesPairsQuick,   FALSE, 2,  TRUE,  1) }
+ModesQuickP ==
+  { Mode("subsetsP", PdiffConfig,  ShapesSubsetsP1,    TRUE,  14, FALSE, 16) }
+\* thorough tier
 ModesThorough ==
   { Mode("subsets4", SmallConfigs, ShapesSubsets,      TRUE,  4,  TRUE,  1),
-    Mode("subsetsP", PdiffConfig,  ShapesSubsets,      TRUE,  14, TRUE,  7),
     Mode("records",  AllConfigs,   ShapesRecords,      FALSE, 1,  TRUE,  1),
     Mode("pairs",    AllConfigs,   ShapesPairs,        FALSE, 2,  TRUE,  5),
     Mode("full4",    SmallConfigs, ShapesPairsQuick,   FALSE, 4,  TRUE,  6) }
+ModesThoroughP ==
+  { Mode("subsetsP", PdiffConfig,  ShapesSubsetsP,     TRUE,  14, TRUE,  5) }
 \* negative controls (small)
 ModesNegIterate   == { Mode("neg", AllConfigs,      ShapesSubsetsQuick, TRUE, 2, TRUE, 1) }
 ModesNegIterateOk == { Mode("neg", NoLookupConfigs, ShapesSubsetsQuick, TRUE, 4, TRUE, 1) }
-ModesProbe == { Mode("subsetsP", PdiffConfig,  ShapesSubsetsP1,    TRUE,  14, FALSE, 16) }
 ModesNegSplit     == { Mode("neg", AllConfigs,      ShapesSubsetsQuick, TRUE, 1, TRUE, 1) }
 =============================================================================
